@@ -378,6 +378,8 @@ func eqnil(t types.Type, x, y value) *Term {
 				return BoolT(y != nil)
 			}
 			return FalseT
+		case *hostFunc:
+			return FalseT
 		case []value:
 			return BoolT((x != nil) == (y.([]value) != nil))
 		}
